@@ -20,8 +20,12 @@ def _record_chunk(job):
         req = tracer_rec.gen(rng, rng.choice(shapes) if shapes else None)
         reqs.append(req)
         ev.append(tracer_rec.record(req))
-    if shapes:          # C12: the unit systems
+    if shapes:          # C12: the unit systems, and one path thousands of resolutions long per chunk
         ev.append(tracer_rec.units_event(random.Random(sd * 7 + k)))
+        if (k // per) % 4 == 0:
+            req = tracer_rec.gen_long(random.Random(sd * 13 + k))
+            reqs.append(req)
+            ev.append(tracer_rec.record(req))
     return ev, reqs
 
 
